@@ -743,6 +743,46 @@ fn run_sched_mode(f: &Forest, ca: (usize, usize), cb: (usize, usize), block_of: 
     }
 }
 
+/// continuation from a quiescent state of the exhaustive search: the peer adopts and announces up
+/// to two more blocks of its chain, one at a time (default schedule); the syncing node must follow
+#[allow(clippy::too_many_arguments)]
+fn follow_growth(f: &Forest, mut net: Net, ca: (usize, usize), cb: (usize, usize), block_of: &BTreeMap<Hash, Vec<u8>>, rep: &mut Report, case: &serde_json::Value, h: &[Ev]) {
+    let mut cb_now = cb;
+    let mut hist: Vec<Ev> = h.to_vec();
+    for grown in 1..=2usize {
+        let next: Option<&Vec<u8>> = if cb_now.1 == 0 { f.trunk.get(cb_now.0) } else { f.branch[cb_now.0].get(cb_now.1) };
+        let Some(bytes) = next else { return };
+        cb_now = if cb_now.1 == 0 { (cb_now.0 + 1, 0) } else { (cb_now.0, cb_now.1 + 1) };
+        let block = decode_block(bytes);
+        let want = block.hash;
+        net.b.q_consensus.push_back(saito_core::core::consensus_thread::ConsensusEvent::BlockFetched { peer_index: 77, block });
+        for _ in 0..2_000 {
+            let en = enabled(&net, 6);
+            let pick = if net.b.tip().1 != want { en.iter().find(|e| matches!(e, Ev::IntB(_))).cloned().or_else(|| en.first().cloned()) } else { en.first().cloned() };
+            let Some(ev) = pick else { break };
+            hist.push(ev);
+            rep.transitions += 1;
+            if !apply(&mut net, ev, block_of, rep, &hist, case) {
+                return;
+            }
+        }
+        if net.b.tip().1 != want {
+            rep.outcome("growth:peer-did-not-adopt-its-next-block");
+            return;
+        }
+        rep.evaluations += 1;
+        let (ta, tb) = (net.a.tip(), net.b.tip());
+        if ta != tb {
+            let mut c = case.clone();
+            c["peer_grew_by"] = json!(grown);
+            c["history"] = json!(hist.iter().map(|e| format!("{:?}", e)).collect::<Vec<_>>());
+            rep.violate(&format!("not-converged-after-the-peer-grew/all-orders/a({},{})/b({},{})", ca.0, ca.1, cb.0, cb.1), format!("the sync ended with both on B's tip; B then adopted {} more block(s) and announced them: at quiescence A is at {}:{} and B at {}:{}", grown, ta.0, hx(&ta.1[..6]), tb.0, hx(&tb.1[..6])), c);
+            return;
+        }
+        rep.outcome("converged-after-the-peer-grew/all-orders");
+    }
+}
+
 fn explore(f: &Forest, ca: (usize, usize), cb: (usize, usize), block_of: &BTreeMap<Hash, Vec<u8>>, rep: &mut Report, cap: usize) {
     let case = json!({"a": {"fork_after": ca.0, "branch_len": ca.1}, "b": {"fork_after": cb.0, "branch_len": cb.1}});
     let mut seen: crate::audit::MergeAudit<Vec<Ev>> = crate::audit::MergeAudit::new();
@@ -756,6 +796,9 @@ fn explore(f: &Forest, ca: (usize, usize), cb: (usize, usize), block_of: &BTreeM
             if evs.is_empty() {
                 r.evaluations += 1;
                 check_quiescent(f, &net, ca, cb, h, &mut r, &case, "all-orders");
+                if A_BATCH.load(std::sync::atomic::Ordering::SeqCst) != 0 && net.a.tip() == net.b.tip() {
+                    follow_growth(f, net, ca, cb, block_of, &mut r, &case, h);
+                }
                 return (r, vec![]);
             }
             let mut out = vec![];
@@ -909,6 +952,14 @@ pub fn main(tier: Tier, replay_file: Option<String>) -> i32 {
         explore(&f, *ca, *cb, &block_of, &mut rep, cap);
         rep.outcome("schedules:world-with-a-syncing-node-that-completed-loading");
     }
+    // the loaded worlds once more with a single fetch slot; from every quiescent state the peer then
+    // grows by two blocks and the syncing node must follow
+    A_BATCH.store(1, std::sync::atomic::Ordering::SeqCst);
+    for (ca, cb) in loaded_worlds.iter() {
+        explore(&f, *ca, *cb, &block_of, &mut rep, cap);
+        rep.outcome("schedules:world-with-a-single-fetch-slot-and-a-growing-peer");
+    }
+    A_BATCH.store(0, std::sync::atomic::Ordering::SeqCst);
     A_LOADED.store(false, std::sync::atomic::Ordering::SeqCst);
     rep.outcome_n("schedules:worlds", worlds.len() as u64);
     // part 2b: default order, long chains
